@@ -7,6 +7,7 @@ import warnings
 import common
 from props import accessspec as spec
 from props import c01match as cm
+from props import c01star as cs
 from props import c01x as cx
 from props import visitlib as vl
 
@@ -61,7 +62,14 @@ def run(tier, seed, build):
                 "dense in `match` statements over the whole pattern grammar (value / literal / singleton / capture / wildcard / "
                 "sequence with star / mapping with dotted keys and **rest / class with positional and keyword sub-patterns / or / "
                 "group / `as` around each of them, guards and bodies using the captures, nested); every pattern kind, every `as` "
-                "wrapping and every load-under-`as` must be reached by the run. non-trivial = distinct callable with >= 3 accesses")
+                "wrapping and every load-under-`as` must be reached by the run. [star] the same three levels under root contexts produced by "
+                "`compile_root_context(ast).expand_starred_imports()`: projects with local star-importable modules (flat / package `__init__` "
+                "re-exporting by `*`, absolute, relative, chained / target inside the package / target = `__init__` / two stars / next to a "
+                "non-local star; star line before or after the file's own definitions; helper modules binding the same names as the target and "
+                "their own builtins), bodies dense in getattr / hasattr / setattr / delattr with a literal name (every base shape, every position), "
+                "sorted(key=…), defaultdict(…) and names only the star supplies; per function (real expanded context, model `analyse_fn`), whole "
+                "files (model `Pipeline2.rootOf` / `analyseAt`, ops star_root / star_file), projects in-process + CLI with the star in the target or "
+                "in a followed import; all four getattr-family builtins must be demanded by the run. non-trivial = distinct callable with >= 3 accesses")
     rng = random.Random(seed)
     n_modules = 60 if tier == "quick" else 900
     model = common.Model()
@@ -96,6 +104,8 @@ def run(tier, seed, build):
                 sig = "missed-access:" + a.tags[0]
             elif cx.match_position(a.path) is not None:
                 sig = "missed-access:" + cx.match_position(a.path)
+            elif cx.xattr_signature(a) is not None:
+                sig = "missed-access:" + cx.xattr_signature(a)
             else:
                 sig = "missed-access:other:" + "/".join(a.path[-2:])
             res.count("verdict:" + sig)
@@ -113,6 +123,13 @@ def run(tier, seed, build):
     # `match` statements: every pattern kind x wrapper x position (py/props/c01match.py, RattrModel/Match.lean)
     cm.run_function_stage(res, random.Random(seed + 7011), 30 if tier == "quick" else 400, model)
     cm.run_file_stages(res, random.Random(seed + 7013), *((16, 8, 3) if tier == "quick" else (200, 60, 12)), model)
+    # star-expanded root contexts (py/props/c01star.py; RattrModel/Pipeline2.lean `rootOf` / `analyseAt`)
+    cs.run_function_stage(res, random.Random(seed + 7017), 8 if tier == "quick" else 100, model)
+    cs.run_file_stage(res, random.Random(seed + 7019), 10 if tier == "quick" else 120, model)
+    cs.run_project_stage(res, random.Random(seed + 7023), *((5, 1) if tier == "quick" else (60, 8)))
+    unreached_star = cs.reach_summary(res.distribution)
+    if unreached_star:
+        res.internal_errors.append({"what": "the star-import stages did not reach part of their input class", "unreached": unreached_star})
     unreached = cm.reach_summary(res.distribution)
     if unreached:
         res.internal_errors.append({"what": "the match generator did not reach some pattern kinds / wrappers", "unreached": unreached})
